@@ -451,8 +451,16 @@ def check(run):
     for i in range(n_cases):
         tree = G.gen_tree(rng)
         report_mode = rng.random() < 0.35
-        f = G.gen_filter(rng, tree, report_mode)
         report = G.gen_report(rng, tree) if report_mode else None
+        f = G.gen_filter(rng, tree, report_mode, report)
+        if report_mode and rng.random() < 0.3:
+            # family: report-based criteria alone (grep on a text of the report, status flags), no metadata option
+            f = G.empty_filter()
+            f["grep"] = G.gen_grep(rng, report) if rng.random() < 0.8 else None
+            for k in ("passed", "failed", "skipped", "non_passed"):
+                f[k] = rng.random() < 0.2
+            f["from_report"] = rng.random() < 0.5 or not (f["grep"] or f["passed"] or f["failed"] or f["skipped"] or f["non_passed"])
+            run.count("family_report_criteria_only")
         if any(G.excluded_glob(p) for p in all_patterns(f)):
             continue
         todo.append({"tree": tree, "filter": f, "report": report,
